@@ -78,3 +78,53 @@ def run(ck: common.Check, tier: str) -> None:
         finally:
             rig.close()
     ck.extra["api_policy_calls"] = n
+    ck.extra["internal_requests_observed"] = internal_requests(ck)
+
+
+def internal_requests(ck: common.Check) -> int:
+    """Every request the client issues on its own - the six handshake requests, the error-text request, the
+    heartbeat, the refresh after a reconnection, the AT4 group poll - must be handed to the socket with the
+    connected-only policy (discarded unless a connection exists within one second; C02 statement)."""
+    import pyairtouch.comms.socket as psock
+    seen = 0
+    for gen in (4, 5):
+        for faulty in (False, True):
+            inst = console.simple_installation(gen, 2, 5)
+            if faulty:
+                import dataclasses
+                for a in list(inst.ac_status):
+                    inst.ac_status[a] = dataclasses.replace(inst.ac_status[a], error_code=7)
+                    inst.errors[a] = "ER: 07"
+            rig = console.ApiRig(inst, record_sends=True)
+            try:
+                phases = []
+                r, _ = rig.init()
+                phases.append(("handshake", len(rig.sock.sends)))
+                rig.advance(301 * 1024)
+                phases.append(("heartbeat", len(rig.sock.sends)))
+                cur = rig.net.current()
+                if cur is not None:
+                    cur.transport.peer_reset()
+                rig.advance(4 * 1024)
+                phases.append(("refresh after reconnection", len(rig.sock.sends)))
+                rig.console.silent_from = 0
+                rig.advance(302 * 1024)
+                phases.append(("silence (AT4 group poll, heartbeat)", len(rig.sock.sends)))
+                lo = 0
+                for name, hi in phases:
+                    for msg, pol in rig.sock.sends[lo:hi]:
+                        ck.count()
+                        seen += 1
+                        if (pol.max_retries, pol.max_lifetime) != (psock.RETRY_CONNECTED.max_retries, psock.RETRY_CONNECTED.max_lifetime):
+                            ck.violation("a request the client issues on its own is not sent with the connected-only policy",
+                                         {"kind": "api-internal-policy", "gen": gen, "phase": name, "message": type(msg).__name__ + " " + repr(msg)[:120],
+                                          "policy": {"max_retries": pol.max_retries, "max_lifetime": pol.max_lifetime},
+                                          "ac_in_fault_at_connect": faulty,
+                                          "trigger": {"class": "api-internal-policy", "gen": gen, "phase": name, "message": type(msg).__name__}})
+                    lo = hi
+                if r != ("ok", True) or len(rig.sock.sends) < 9:
+                    ck.violation("internal request scenario did not run as expected",
+                                 {"kind": "api-internal-policy", "gen": gen, "init": list(r), "sends": len(rig.sock.sends)}, found_input=False)
+            finally:
+                rig.close()
+    return seen
